@@ -388,6 +388,51 @@ def desugar_combinators(raws, reference):
                     direct.add(name)
                     raw.setdefault("desugared", []).append(["call", name])
                 continue
+            # `c.then(|| v)`: `if c { Some(v) } else { None }`
+            if name in ("core::bool::<impl bool>::then", "std::bool::<impl bool>::then") and len(t["args"]) == 2:
+                ca = t["args"][1]
+                cp = ca.get("m") or ca.get("c")
+                cond = t["args"][0]
+                d = _single_def(raw, cp["l"]) if cp is not None and not cp["pr"] else None
+                cpath = d["r"].get("path") if d is not None and d.get("r", {}).get("k") == "agg" and d["r"].get("ak") == "closure" else None
+                cl = raws.get(cpath) if cpath else None
+                if cl is not None and cpath in fresh and cl["kind"] == "Closure" and cl["arg_count"] == 1 and (cond.get("m") or cond.get("c") or cond.get("k")) is not None:
+                    line = (t.get("span") or {}).get("lo") or 0
+                    span = t.get("span")
+                    locs = raw["locals"]
+
+                    def newlocal3(ty):
+                        locs.append({"ty": ty, "mut": True})
+                        return len(locs) - 1
+                    res = newlocal3(cl["locals"][0]["ty"])
+                    cnd = newlocal3("bool")
+                    blocks = raw["blocks"]
+                    b_on, b_wrap, b_none = (len(blocks) + k_ for k_ in range(3))
+                    cont, dest = t["target"], t["dest"]
+                    on_stmts = []
+                    env_ty = cl["locals"][1]["ty"]
+                    if env_ty.startswith("&"):
+                        env = newlocal3(env_ty)
+                        on_stmts.append({"k": "assign", "p": {"l": env, "pr": []}, "line": line,
+                                         "r": {"k": "ref", "bk": "mut" if env_ty.startswith("&mut") else "shared", "p": {"l": cp["l"], "pr": []}}})
+                        cargs = [{"m": {"l": env, "pr": []}}]
+                    else:
+                        cargs = [{"m": {"l": cp["l"], "pr": []}}]
+                    blocks.append({"s": on_stmts, "t": {"k": "call", "decl": cpath, "res": cpath, "res_kind": "Item", "args": cargs,
+                                                        "dest": {"l": res, "pr": []}, "target": b_wrap, "span": span}})
+                    blocks.append({"s": [{"k": "assign", "p": dest, "line": line,
+                                          "r": {"k": "agg", "ak": "adt", "path": _OPT, "variant": "Some", "vi": 1, "fields": ["0"], "ops": [{"m": {"l": res, "pr": []}}]}}],
+                                   "t": {"k": "goto", "target": cont, "span": span}})
+                    blocks.append({"s": [{"k": "assign", "p": dest, "line": line,
+                                          "r": {"k": "agg", "ak": "adt", "path": _OPT, "variant": "None", "vi": 0, "fields": [], "ops": []}}],
+                                   "t": {"k": "goto", "target": cont, "span": span}})
+                    pre = blocks[bi]
+                    pre["s"].append({"k": "assign", "p": {"l": cnd, "pr": []}, "line": line, "r": {"k": "use", "o": cond}})
+                    pre["t"] = {"k": "switch", "discr": {"m": {"l": cnd, "pr": []}}, "ty": "bool", "arms": [[0, b_none]], "otherwise": b_on,
+                                "span": span, "desugared": name}
+                    direct.add(cpath)
+                    raw.setdefault("desugared", []).append([name, cpath])
+                    continue
             # `x.filter(|v| p(v))`: `match x { Some(v) if p(&v) => Some(v), _ => None }`
             if name in ("std::option::Option::<T>::filter", "core::option::Option::<T>::filter") and len(t["args"]) == 2:
                 ca = t["args"][1]
